@@ -818,10 +818,26 @@ class Controller:
             logger.warning(f'!!! no connection for {sender_address}')
             return
 
-        # Send the data to the host
-        # TODO: should fragment
-        acl_packet = hci.HCI_AclDataPacket(connection.handle, 2, 0, len(data), data)
-        self.send_hci_packet(acl_packet)
+        # Send the data to the host, in fragments that fit the ACL data packet length
+        # (the length field of an HCI ACL data packet is only 16 bits wide)
+        if transport == PhysicalTransport.LE and self.le_acl_data_packet_length:
+            max_packet_size = self.le_acl_data_packet_length
+        else:
+            max_packet_size = self.acl_data_packet_length
+        for offset in range(0, len(data) or 1, max_packet_size):
+            fragment = data[offset : offset + max_packet_size]
+            acl_packet = hci.HCI_AclDataPacket(
+                connection.handle,
+                (
+                    hci.HCI_ACL_PB_CONTINUATION
+                    if offset
+                    else hci.HCI_ACL_PB_FIRST_FLUSHABLE
+                ),
+                0,
+                len(fragment),
+                fragment,
+            )
+            self.send_hci_packet(acl_packet)
 
     def on_advertising_pdu(self, pdu: ll.AdvInd | ll.AdvExtInd) -> None:
         if isinstance(pdu, ll.AdvExtInd):
